@@ -8,6 +8,7 @@ import (
 	"strconv"
 	"strings"
 	"syscall"
+	"time"
 
 	sbytes "github.com/talostrading/sonic/bytes"
 
@@ -300,9 +301,10 @@ func init() {
 			"bytes committed without having been written through a claim have whatever content the memory holds (snapshotted at commit time)",
 			"kernel mmap/munmap behaviour and /proc/self/maps are trusted",
 		},
-		Builds:   func(string) []string { return []string{"checkptr"} },
-		NumCases: func(tier, build string) int { return vf.Tiered(tier, 17*24, 17*10000) },
-		Floor:    func(tier string) int { return vf.Tiered(tier, 100, 5000) },
-		Run:      runC11,
+		Builds:      func(string) []string { return []string{"checkptr"} },
+		NumCases:    func(tier, build string) int { return vf.Tiered(tier, 17*24, 17*10000) },
+		Floor:       func(tier string) int { return vf.Tiered(tier, 100, 5000) },
+		CaseTimeout: 60 * time.Second,
+		Run:         runC11,
 	})
 }
